@@ -660,7 +660,8 @@ const W_TYS: &[Ty] = &[
 
 fn generate_single(r: &mut Rng, tier: Tier) -> C16 {
     let big = r.chance(1, if tier == Tier::Thorough { 40 } else { 400 });
-    let nitems = if big { r.range(1, 2) } else { 1 + r.below(8) } as usize;
+    let max_frames = if tier == Tier::Thorough && r.chance(1, 4) { 20 } else { 8 };
+    let nitems = if big { r.range(1, 2) } else { 1 + r.below(max_frames) } as usize;
     let profile = r.below(4);
     let mixed = r.chance(1, 2);
     let ty0 = *r.pick(W_TYS);
@@ -687,7 +688,8 @@ fn generate_single(r: &mut Rng, tier: Tier) -> C16 {
     let en_cancel = r.chance(3, 4);
     let density = *r.pick(&[1u64, 1, 3, 8]);
     let gran = *r.pick(&[1u32, 2, 4, 4, 16, 64, 1024]);
-    let lane_len = r.usize_in(0, if tier == Tier::Quick { 64 } else { 96 });
+    let lane_max = if tier == Tier::Quick { 64 } else if r.chance(1, 4) { 200 } else { 96 };
+    let lane_len = r.usize_in(0, lane_max);
     let mut sink = Vec::with_capacity(lane_len);
     for _ in 0..lane_len {
         let roll = r.below(16);
@@ -907,7 +909,7 @@ impl Property for P16 {
     fn random_runs(tier: Tier) -> u64 {
         match tier {
             Tier::Quick => 1_500_000,
-            Tier::Thorough => 60_000_000,
+            Tier::Thorough => 150_000_000,
         }
     }
 
